@@ -23,7 +23,7 @@ Ltac same :=
   subst S'; unfold with_to_c;
   repeat (progress unfold
     permatuhedral_sampling, sector_loop, remove_one, sample_edge, scan_edges, edge_prob, rng_next, halfD,
-    compute_l_matrix, decompose_for_tropical, cholesky, chol_step, n_powers, mmul, madd, msub, mtranspose,
+    compute_l_matrix, decompose_for_tropical, cholesky, chol_columns, chol_column, n_powers, mmul, madd, msub, mtranspose,
     midentity, mzeros, l21_norm, tabulate, mget, mset, s_geb, s_gtb,
     sample_q_vectors, gaussians, box_muller, chunks,
     compute_u_vectors, compute_v_polynomial, compute_loop_momenta, compute_only_shift,
@@ -43,7 +43,7 @@ Ltac proj := cbn [s_add s_sub s_mul s_div s_neg s_inv s_abs s_sqrt s_ln s_exp s_
 Ltac small l := subst S'; unfold with_to_c; repeat (progress unfold l, mget, mset, mzeros, tabulate); proj; reflexivity.
 
 Lemma cholesky_same n m : cholesky S' n m = cholesky S n m.
-Proof. subst S'; unfold with_to_c, cholesky, chol_step, mzeros, mget, mset; proj; reflexivity. Qed.
+Proof. subst S'; unfold with_to_c, cholesky, chol_columns, chol_column, mget; proj; reflexivity. Qed.
 Lemma det_q_same n q : det_q_of S' n q = det_q_of S n q.
 Proof. subst S'; unfold with_to_c, det_q_of, mget; proj; reflexivity. Qed.
 Lemma inv_diag_same n q : inv_diag_of S' n q = inv_diag_of S n q.
